@@ -5,6 +5,7 @@ pub mod c01;
 pub mod c02;
 pub mod c03;
 pub mod c04;
+pub mod c05;
 pub mod c09;
 #[cfg(not(feature = "inproc"))]
 pub mod c12;
@@ -37,6 +38,7 @@ table! {
     "C02" => c02::C02,
     "C03" => c03::C03,
     "C04" => c04::C04,
+    "C05" => c05::C05,
     "C09" => c09::C09,
     #[cfg(not(feature = "inproc"))]
     "C12" => c12::C12,
